@@ -68,6 +68,22 @@ class ObjArr(_np.ndarray):
         return r
 
 
+def _mk_reduction(name):
+    base = getattr(_np.ndarray, name)
+
+    def red(self, *a, **k):
+        r = base(self.view(_np.ndarray), *a, **k)
+        if isinstance(r, _np.ndarray):
+            return r.view(ObjArr) if r.ndim else r.item()
+        return r
+    red.__name__ = name
+    return red
+
+
+for _n in ('max', 'min', 'prod', 'any', 'all', 'argmax', 'argmin'):
+    setattr(ObjArr, _n, _mk_reduction(_n))
+
+
 def _view(a):
     if isinstance(a, _np.ndarray) and a.dtype == object and not isinstance(a, ObjArr):
         return a.view(ObjArr)
